@@ -22,6 +22,7 @@ def run(ck):
     from harness.drivers import history
     progs += history.derived_programs(ck.seed, 40 if q else 800, tids=tids)
     progs += fuse.single_group_programs(ck.seed, 80 if q else 1500, tids=tids)
+    progs += fuse.mixed_fuse_programs(ck.seed, 40 if q else 800, tids=tids)
     ck.cov["rule"] = ("random sparse abelian/fermionic arrays of rank 2-4, 1-2 disjoint groups (single-axis, permuted, "
                       "non-adjacent, nested), both strategies, cache off/one/cold; relocation read back through the "
                       "result's own sub-index table")
